@@ -136,6 +136,8 @@ class Evaluator:
             raise Unknown(f"abstract object {v!r} has no attribute {n.attr}")
         if isinstance(v, ClassRef) and "__classattr__" in self.hooks:
             return self.hooks["__classattr__"](v, n.attr)
+        if type(v).__name__ == "Arr" and n.attr in ("shape", "ndim", "tolist", "copy", "astype", "sum", "cumsum", "max", "min"):
+            return getattr(v, n.attr)
         for t, names in _SAFE_METHODS.items():
             if isinstance(v, t) and n.attr in names:
                 return getattr(v, n.attr)
@@ -231,22 +233,34 @@ class Evaluator:
                 out[self.ev(k, env)] = self.ev(v, env)
         return out
 
+    def _Slice(self, n, env):
+        return slice(*(None if x is None else self.ev(x, env) for x in (n.lower, n.upper, n.step)))
+
     def _Subscript(self, n, env):
         v = self.ev(n.value, env)
         if isinstance(n.slice, ast.Slice):
             s = slice(*(None if x is None else self.ev(x, env) for x in (n.slice.lower, n.slice.upper, n.slice.step)))
-            return v[s]
+            try:
+                return v[s]
+            except TypeError as e:
+                if isinstance(v, (int, float, bool, type(None))) or any(type(b).__name__ == "Arr" or isinstance(b, (list, str)) for b in (s.start, s.stop) if b is not None):
+                    raise EvalRaised("TypeError", f"{ast.unparse(n)[:60]}: {e}")
+                raise Unknown(f"subscript {ast.unparse(n)[:60]}: {e}")
         k = self.ev(n.slice, env)
         try:
             if isinstance(v, Obj) and "__getitem__" in self.hooks:
                 return self.hooks["__getitem__"](v, k)
             return v[k]
         except (IndexError, KeyError) as e:
-            if isinstance(v, (list, tuple, dict, str, Obj)):
+            if isinstance(v, (list, tuple, dict, str, Obj)) or type(v).__name__ == "Arr":
                 raise EvalRaised(type(e).__name__, f"{ast.unparse(n)[:60]}: {e}")
             raise Unknown(f"subscript {ast.unparse(n)[:60]}: {e}")
         except (Unknown, EvalRaised):
             raise
+        except TypeError as e:
+            if isinstance(v, (int, float, bool, type(None))) or "slice indices" in str(e):
+                raise EvalRaised("TypeError", f"{ast.unparse(n)[:60]}: {e}")  # subscripting a number / a non-integer slice bound: the evaluated code itself fails
+            raise Unknown(f"subscript {ast.unparse(n)[:60]}: {e}")
         except Exception as e:
             raise Unknown(f"subscript {ast.unparse(n)[:60]}: {e}")
 
@@ -270,6 +284,14 @@ class Evaluator:
                 raise Unknown("unpacking arity")
             for t, v in zip(target.elts, vals):
                 self.bind(t, v, env)
+        elif isinstance(target, ast.Subscript) and isinstance(target.value, ast.Name) and type(env.get(target.value.id)).__name__ == "Arr":
+            k = self.ev(target.slice, env)
+            try:
+                env[target.value.id][k] = value
+            except (ValueError, IndexError) as e:
+                raise EvalRaised(type(e).__name__, f"{ast.unparse(target)[:60]}: {e}")
+            except Exception as e:
+                raise Unknown(f"store {ast.unparse(target)[:60]}: {e}")
         elif isinstance(target, ast.Subscript) and isinstance(target.value, ast.Name) and isinstance(env.get(target.value.id), (list, dict)):
             # element / slice store into a container that the fragment itself created
             recv = env[target.value.id]
